@@ -4520,9 +4520,17 @@ impl<'s> Semantics<'s> {
                 Expression::cmpltu(result.clone().into(), lhs)?,
             );
 
-            // store result: dest gets sum, src gets original dest
-            self.operand_store(block, &detail.operands[0], result.into())?;
-            self.operand_store(block, &detail.operands[1], original_dest.into())?;
+            // store result: dest gets sum, src gets original dest.  With a register
+            // destination the destination is written last (`xadd eax, eax` leaves the sum);
+            // with a memory destination the store comes first because the source register
+            // may be part of the address.
+            if detail.operands[0].type_ == x86_op_type::X86_OP_REG {
+                self.operand_store(block, &detail.operands[1], original_dest.into())?;
+                self.operand_store(block, &detail.operands[0], result.into())?;
+            } else {
+                self.operand_store(block, &detail.operands[0], result.into())?;
+                self.operand_store(block, &detail.operands[1], original_dest.into())?;
+            }
 
             block.index()
         };
